@@ -339,9 +339,37 @@ def decode_a64(code: str) -> bool:
     return verdict(got == _a64_expected(code), nontrivial=True, sample=lambda: {"code": code})
 
 
+def decode_mixed(code: str, x86_first: bool) -> bool:
+    """
+    pre: 1 <= len(code) <= 4
+    post: _
+    """
+    # codes that are documented for BOTH ISAs (x, i, m + letters of b,o,i,s) decoded for one ISA, then for
+    # the other, then for the first again in one process (an import for x86 followed by one for AArch64)
+    if skip(locals()):
+        return True
+    if len(code) == 1:
+        if code not in ("x", "i", "m"):
+            return True
+    else:
+        if code[0] != "m":
+            return True
+        seen = ""
+        for ch in code[1:]:
+            if ch not in ("b", "o", "i", "s") or ch in seen:
+                return True
+            seen += ch
+    order = ["x86", "aarch64", "x86"] if x86_first else ["aarch64", "x86", "aarch64"]
+    ok = True
+    for isa in order:
+        got = dbi._create_db_operand(code, isa)
+        ok = ok and got == (_x86_expected(code) if isa == "x86" else _a64_expected(code))
+    return verdict(ok, nontrivial=True, sample=lambda: {"code": code, "order": order})
+
+
 # ---- ibench / asmbench structure ---------------------------------------------------------------
 
-FORMS = ["FA-r_r", "fb-x_x_x", "fc-mboi_r", "FA-r_i"]       # note: FA twice with different operands (upper case as in the DBs)
+FORMS = ["FA-r_r", "fb-x_x_x", "fc-mboi_r", "FA-r_i", "fb-y_y_y", "fd-r_r"]       # note: FA twice with different operands (upper case as in the DBs)
 TPS = [("0.251", 0.25), ("0.501", 0.5), ("1.049", 1.0), ("0.7", None)]
 LTS = [("4.013", 4.0), ("8.010", 8.0), ("2.5", None), ("1.0", 1.0)]
 
@@ -360,7 +388,9 @@ def _emitted(model):
 
 def _ibench_concrete(order, header, blank, vals, same_name):
     """order: permutation index of the TP/LT lines of 2-3 forms; vals: per form (tp idx, lt idx)"""
-    forms = [FORMS[0], FORMS[3] if same_name else FORMS[1], FORMS[2]][:len(vals)]
+    # same_name 0: three different mnemonics; 1: the upper-case mnemonic FA twice (known finding); 2: the
+    # lower-case mnemonic fb twice with different operand codes and the same operand count
+    forms = ([FORMS[0], FORMS[3] if same_name else FORMS[1], FORMS[2]] if same_name != 2 else [FORMS[1], FORMS[4], FORMS[5]])[:len(vals)]
     lines = []
     if header:
         lines.append("Using frequency 2.50GHz.\n")
@@ -398,9 +428,9 @@ def _ibench_concrete(order, header, blank, vals, same_name):
     return ok, emitted_ok, {"lines": [l.strip() for l in lines]}
 
 
-def ibench(nforms: int, order: int, header: bool, t0: int, l0: int, t1: int, l1: int, t2: int, l2: int, same_name: bool) -> bool:
+def ibench(nforms: int, order: int, header: bool, t0: int, l0: int, t1: int, l1: int, t2: int, l2: int, same_name: int) -> bool:
     """
-    pre: 1 <= nforms <= 3 and 0 <= order <= 2
+    pre: 1 <= nforms <= 3 and 0 <= order <= 2 and 0 <= same_name <= 2
     pre: 0 <= t0 < 4 and 0 <= l0 < 4 and 0 <= t1 < 4 and 0 <= l1 < 4 and 0 <= t2 < 4 and 0 <= l2 < 4
     post: _
     """
@@ -414,12 +444,12 @@ def ibench(nforms: int, order: int, header: bool, t0: int, l0: int, t1: int, l1:
         return True
     if nforms == 3 and (t1 == 1 or t1 == 2 or l1 == 1 or l1 == 2 or t2 == 1 or t2 == 2 or l2 == 1 or l2 == 2):
         return True   # three-form files: later forms restricted to {in-tolerance, out-of-tolerance} values
-    if same_name and nforms < 2:
+    if same_name != 0 and nforms < 2:
         return True
     n = pick(nforms - 1, 3) + 1
     vals = [(pick(t0, 4), pick(l0, 4)), (pick(t1, 4), pick(l1, 4)), (pick(t2, 4), pick(l2, 4))]
-    sn = True if same_name else False
-    st = kf_state({"same_name": sn})
+    sn = pick(same_name, 3)
+    st = kf_state({"same_name": sn == 1})
     if st == "skip":
         return True
     ok, emitted_ok, sample = native(_ibench_concrete, pick(order, 3), True if header else False, False, vals[:n], sn)
@@ -493,6 +523,7 @@ CELLS = {
     "e2_tp_sound": {"kind": "smt", "fn": lambda b: _e2_run("tp", "sound", b), "replay": _replay_sound("tp"), "bound": "E2 cross-check of snap_tp_sound on a second encoding", "budget": {"quick": 170, "thorough": 900}},
     "e2_tp_complete": {"kind": "smt", "fn": lambda b: _e2_run("tp", "complete", b), "replay": _replay_complete("tp"), "bound": "E2 cross-check of snap_tp_complete", "budget": {"quick": 170, "thorough": 900}},
     "decode_x86": {"fn": decode_x86, "bound": "operand code = symbolic string, len <= 5, restricted to the documented x86 codes (r, x, y, z, i, m + distinct letters of b,o,i,s in any order)", "budget": {"quick": 170, "thorough": 600}},
+    "decode_mixed": {"fn": decode_mixed, "bound": "every operand code documented for both ISAs (all strings up to length 4) decoded for one ISA, the other, and the first again within one process", "budget": {"quick": 170, "thorough": 600}},
     "decode_a64": {"fn": decode_a64, "bound": "symbolic string, len <= 4, documented AArch64 codes (w,x,b,h,s,d,q, v[bhsd], i, m + distinct letters of b,o,i,s,r,p)", "budget": {"quick": 170, "thorough": 900}},
     "ibench": {"fn": ibench, "bound": "1-3 forms, TP/LT lines in 3 orders, with/without frequency header, measurements from {in tolerance, out of tolerance} per line, two forms sharing a mnemonic", "budget": {"quick": 170, "thorough": 600}, "shards": 16},
     "asmbench": {"fn": asmbench, "bound": "1-3 blocks, corrupted 4th line at any block, truncated last block, measurements in/out of tolerance", "budget": {"quick": 170, "thorough": 600}, "shards": 16},
